@@ -351,12 +351,20 @@ STD_TRUST = [
 
 def write_evidence(ctx, nviol):
     pr = ctx.proof or {}
-    axioms = sorted({a for l in pr.get('assumptions', {}).values() for a in l})
+    reported = sorted({a for l in pr.get('assumptions', {}).values() for a in l})
+    prims = [a for a in reported if a.split('.')[0] in ('PrimFloat', 'PrimInt63', 'Uint63', 'Float64', 'FloatOps')
+             or a in ('float', 'int')]
+    axioms = [a for a in reported if a not in prims]
     tb = list(STD_TRUST)
     if axioms:
-        tb.append('axioms reported by Print Assumptions (all from the Coq standard library): ' + ', '.join(axioms))
-    else:
-        tb.append('Print Assumptions: every property theorem is closed under the global context')
+        tb.append('axioms reported by Print Assumptions (all declared by the Coq standard library, none by this '
+                  'development): ' + ', '.join(axioms))
+    if prims:
+        tb.append('kernel primitives (native 63-bit integers / binary64 floats, not axioms) used by the finite '
+                  'floating-point theorem: ' + ', '.join(prims))
+    if not axioms:
+        tb.append('Print Assumptions: no axiom under any property theorem'
+                  + (' (apart from the primitives above)' if prims else ' (closed under the global context)'))
     tb += ctx.assumptions
     nthm = len(pr.get('theorems', []))
     cov = {
